@@ -603,6 +603,159 @@ var xmlnsRe = regexp.MustCompile(`xmlns:m([01])="([^"]*)">m[01]:`)
 var memberRe = regexp.MustCompile(`"([A-Za-z0-9:_-]+)":("(?:[^"\\]|\\.)*"|-?[0-9][0-9.eE+-]*|null|true|false|\[null\])`)
 var scalarRe = regexp.MustCompile(`[:\[,>]("(?:[^"\\]|\\.)*"|-?[0-9][0-9.eE+-]*|null|true|false|\[null\]|[^<>{}\[\]:,"]+)[,\]}<]`)
 
+// ---- XML with the siblings in another order ---------------------------------------------
+//
+// RFC 6020 7.8.5 / 7.7.5: the entries of a list or leaf-list may be interleaved with their siblings (and with the entries
+// of another list); only the keys of a list entry come first.  The interleaved document is an encoding of the same tree.
+
+type xel struct {
+	start, name, text string
+	selfClose         bool
+	kids              []*xel
+}
+
+// parseXML reads the regular XML the encoder writes (elements with either text or child elements); ok=false on
+// anything else.
+func parseXML(b []byte) (head string, root *xel, ok bool) {
+	pos := 0
+	var elem func() *xel
+	elem = func() *xel {
+		if pos >= len(b) || b[pos] != '<' {
+			return nil
+		}
+		end := bytes.IndexByte(b[pos:], '>')
+		if end < 0 {
+			return nil
+		}
+		tag := string(b[pos+1 : pos+end])
+		e := &xel{start: string(b[pos : pos+end+1])}
+		pos += end + 1
+		if strings.HasSuffix(tag, "/") {
+			e.selfClose = true
+			tag = strings.TrimSuffix(tag, "/")
+		}
+		e.name = tag
+		if i := strings.IndexAny(tag, " \t\r\n"); i >= 0 {
+			e.name = tag[:i]
+		}
+		if e.selfClose {
+			return e
+		}
+		for pos < len(b) {
+			if bytes.HasPrefix(b[pos:], []byte("</")) {
+				end := bytes.IndexByte(b[pos:], '>')
+				if end < 0 || string(b[pos+2:pos+end]) != e.name {
+					return nil
+				}
+				pos += end + 1
+				return e
+			}
+			if b[pos] == '<' {
+				k := elem()
+				if k == nil {
+					return nil
+				}
+				e.kids = append(e.kids, k)
+				continue
+			}
+			nx := bytes.IndexByte(b[pos:], '<')
+			if nx < 0 {
+				return nil
+			}
+			e.text += string(b[pos : pos+nx])
+			pos += nx
+		}
+		return nil
+	}
+	for pos < len(b) && (b[pos] != '<' || bytes.HasPrefix(b[pos:], []byte("<?"))) {
+		end := bytes.IndexByte(b[pos:], '>')
+		if b[pos] != '<' {
+			end = 0
+		}
+		if end < 0 {
+			return "", nil, false
+		}
+		pos += end + 1
+	}
+	head = string(b[:pos])
+	root = elem()
+	return head, root, root != nil && strings.TrimSpace(string(b[pos:])) == ""
+}
+
+func (e *xel) write(w *strings.Builder) {
+	w.WriteString(e.start)
+	if e.selfClose {
+		return
+	}
+	if len(e.kids) > 0 {
+		for _, k := range e.kids {
+			k.write(w)
+		}
+	} else {
+		w.WriteString(e.text)
+	}
+	w.WriteString("</" + e.name + ">")
+}
+
+// interleave reorders the children of every element: the first two children stay (the keys of a list entry), the others
+// are dealt out round-robin over their names, each name keeping the order of its own elements.  changed reports whether
+// some element with a repeated name is no longer contiguous.
+func (e *xel) interleave() (changed bool) {
+	for _, k := range e.kids {
+		if k.interleave() {
+			changed = true
+		}
+	}
+	if len(e.kids) < 3 {
+		return changed
+	}
+	fixed := 2
+	rest := e.kids[fixed:]
+	var names []string
+	groups := map[string][]*xel{}
+	for _, k := range rest {
+		if _, ok := groups[k.name]; !ok {
+			names = append(names, k.name)
+		}
+		groups[k.name] = append(groups[k.name], k)
+	}
+	if len(names) < 2 {
+		return changed
+	}
+	var out []*xel
+	for len(out) < len(rest) {
+		// repeated names first in each round, so that their entries end up apart
+		for _, n := range names {
+			if g := groups[n]; len(g) > 0 {
+				out = append(out, g[0])
+				groups[n] = g[1:]
+			}
+		}
+	}
+	for i := range rest {
+		if rest[i] != out[i] {
+			changed = true
+		}
+	}
+	e.kids = append(append([]*xel(nil), e.kids[:fixed]...), out...)
+	return changed
+}
+
+func interleavedXML(b []byte) ([]byte, bool) {
+	head, root, ok := parseXML(b)
+	if !ok {
+		return nil, false
+	}
+	// the document element holds the top-level nodes; it has no keys
+	if !root.interleave() {
+		return nil, false
+	}
+	var w strings.Builder
+	w.WriteString(head)
+	root.write(&w)
+	return []byte(w.String()), true
+}
+
 func checkCase(c Case) fw.Outcome {
 	out := fw.Outcome{}
 	res := sgc.Compile(c.Mods, sgc.Opts{Features: sgc.AllFeatures{}})
@@ -664,6 +817,23 @@ func checkCase(c Case) fw.Outcome {
 					if g2.String() != wb.String() {
 						out.Violation = fmt.Sprintf("XML: the encoding with renamed namespace prefixes decodes to another tree\n--- original\n%s--- decoded\n%s--- encoding\n%s\n%s", wb.String(), g2.String(), b2, src)
 						return out
+					}
+				}
+				if i == 2 {
+					// the same document with list entries interleaved with their siblings is an encoding of the same tree
+					if b3, ok := interleavedXML(b); ok {
+						out.Labels = append(out.Labels, "xml-interleaved")
+						got3, err3, pan3 := decode(i, res.MS, b3, validate)
+						if pan3 != nil || err3 != nil {
+							out.Violation = fmt.Sprintf("XML: the encoding with interleaved siblings does not decode: %v %v\nencoding: %s\noriginal encoding: %s\n%s", pan3, err3, b3, b, src)
+							return out
+						}
+						var g3 strings.Builder
+						canon(oi, got3.Kids, 0, &g3, false)
+						if g3.String() != wb.String() {
+							out.Violation = fmt.Sprintf("XML: the encoding with interleaved siblings decodes to another tree\n--- original\n%s--- decoded\n%s--- encoding\n%s\n%s", wb.String(), g3.String(), b3, src)
+							return out
+						}
 					}
 				}
 				var gb strings.Builder
